@@ -20,7 +20,8 @@
 (*   [k "method", f, w, flags]                       Method(f, flags) {      argc = flags % 8    *)
 (*   [k "close"]                                     }                                           *)
 (*   [k "decl",   kind, f, args]                     Name|OpRegion|Mutex|Event(f, args...)       *)
-(*   [k "field",  f region, w, flags, els]           Field(region, flags) { els }                *)
+(*   [k "field",  kind, f, (g), (v), w, flags, els]  Field(f region) | IndexField(f index, g data) |  *)
+(*                                                   BankField(f region, g bank, v[1] bank value)     *)
 (*        els[i]: [e "unit", name, bits, wl] | [e "skip", bits, wl] | [e "access", at, aa]        *)
 (*   [k "stmt",   op, x]                             Return|Store|Increment|call statement       *)
 (*   [k "if", x, w] [k "else", w] [k "while", x, w]  blocks inside a method, closed by "close"   *)
@@ -121,9 +122,9 @@ UsesOperator(t) == t.k \in {"stmt", "if", "while"} /\ \E i \in 1..Len(t.x) : Has
 UsesWhile(t)    == t.k = "while"
 
 (* ------------------------------------------------------------------ the loader *)
-\* st: [ns, names (declared last segments), displaced (see D1b), stack (<<[p, t, cnt, late, off]>>), pend (invocations of this table),
+\* st: [ns, names (declared last segments), displaced (see D1b), ixs (see D10), stack (<<[p, t, cnt, late, off]>>), pend (invocations of this table),
 \*      calls (resolved invocations of finished tables), tab, trig (finding ids met), err]
-S0 == [ns |-> Predef, names |-> {}, displaced |-> {}, stack |-> <<>>, pend |-> <<>>, calls |-> <<>>, tab |-> 1, trig |-> {}, err |-> <<>>]
+S0 == [ns |-> Predef, names |-> {}, displaced |-> {}, ixs |-> {}, stack |-> <<>>, pend |-> <<>>, calls |-> <<>>, tab |-> 1, trig |-> {}, err |-> <<>>]
 Cur(st)      == IF st.stack = <<>> THEN <<>> ELSE Last(st.stack).p
 InMethod(st) == \E i \in 1..Len(st.stack) : st.stack[i].t = "method"
 Fail(st, why) == [st EXCEPT !.err = why]
@@ -154,25 +155,44 @@ Declare(st, t, kind, args, scoped) ==
                             !.displaced = IF Displaces(st, p) THEN @ \cup {p} ELSE @]
        IN IF scoped = "" THEN s1 ELSE Push(s1, p, scoped)
 
-\* field units: running bit offset, access type/attribute as last set, lock/update rule from the flags
+\* field units: running bit offset, access type/attribute as last set, lock/update rule from the flags.
+\* A unit records the kind of its container and the container's arguments as written (names are not
+\* replaced: the tree keeps name strings there)
+FieldArgs(t) == <<[t |-> "name", f |-> t.f]>>
+                \o (IF t.kind = "Field" THEN <<>> ELSE <<[t |-> "name", f |-> t.g]>>)
+                \o (IF t.kind = "BankField" THEN <<t.v[1]>> ELSE <<>>)
 RECURSIVE Units(_, _, _, _, _, _)
 Units(t, cur, i, off, at, aa) ==
   IF i > Len(t.els) THEN <<>>
   ELSE LET e == t.els[i] IN
        CASE e.e = "unit"   -> <<[p |-> Append(cur, e.name), kind |-> "NamedField",
-                                 args |-> <<[t |-> "unit", f |-> t.f,
+                                 args |-> <<[t |-> "unit", s |-> t.kind, a |-> FieldArgs(t),
                                              n |-> <<off, e.bits, at, aa, (t.flags \div 16) % 2, (t.flags \div 32) % 4>>]>>]>>
                               \o Units(t, cur, i + 1, off + e.bits, at, aa)
          [] e.e = "skip"   -> Units(t, cur, i + 1, off + e.bits, at, aa)
          [] e.e = "access" -> Units(t, cur, i + 1, off, e.at, e.aa)
+\* the names of a field container must designate what ACPI requires: Field / BankField an operation
+\* region, IndexField its index and data registers (field units), BankField its bank register (field unit)
+KindAt(ns, cur, f) == LET p == Lookup(ns, cur, f) IN IF p = None \/ p = <<>> \/ ~Has(ns, p) THEN "" ELSE Obj(ns, p).kind
+FieldNamesOK(st, t) ==
+  /\ KindAt(st.ns, Cur(st), t.f) = (IF t.kind = "IndexField" THEN "NamedField" ELSE "OpRegion")
+  /\ t.kind # "Field" => KindAt(st.ns, Cur(st), t.g) = "NamedField"
+\* D11: an IndexField whose index register is written with a prefix or path (the parser treats the
+\* IndexField as an object of that name: it relocates it along the path and strips the name)
+PrefixedIndexName(t) == t.k = "field" /\ t.kind = "IndexField" /\ ~SingleSeg(t.f)
 DeclField(st, t) ==
   LET us == Units(t, Cur(st), 1, 0, t.flags % 16, 0)
       ps == {us[i].p : i \in 1..Len(us)} IN
   IF InMethod(st) THEN Fail(st, <<"declaration inside a method", t>>)
+  ELSE IF ~FieldNamesOK(st, t) THEN Fail(st, <<"field container names do not designate a region / field units", t>>)
   ELSE IF Cardinality(ps) # Len(us) \/ \E p \in ps : Has(st.ns, p) THEN Fail(st, <<"field unit declared twice", t>>)
   ELSE [st EXCEPT !.ns = @ \cup {us[i] : i \in 1..Len(us)},
                   !.names = @ \cup {Last(p) : p \in ps},
-                  !.trig = @ \cup (IF \E p \in ps : ReusesName(st.names, Last(p)) THEN {"D3"} ELSE {})]
+                  \* D10 bookkeeping: an IndexField written in another scope than its index register
+                  !.ixs = IF t.kind = "IndexField" /\ Front(Lookup(st.ns, Cur(st), t.f)) # Cur(st)
+                          THEN @ \cup {[q |-> Cur(st), x |-> Last(t.f.segs)]} ELSE @,
+                  !.trig = @ \cup (IF \E p \in ps : ReusesName(st.names, Last(p)) THEN {"D3"} ELSE {})
+                             \cup (IF PrefixedIndexName(t) THEN {"D11"} ELSE {})]
 
 \* operands of a statement wait for the end of the table (a name may be declared after its use)
 Count(st) == IF st.stack = <<>> THEN st ELSE [st EXCEPT !.stack[Len(st.stack)].cnt = @ + 1]
@@ -192,6 +212,12 @@ TermOK(ns, r) ==
 
 \* end of a table: the recorded operands are resolved against the namespace as it is NOW; the
 \* invocations among them (source order) are what the tree has to show
+\* D10: the parser gives an IndexField the name of its index register; a single-segment name in a method
+\* body that is searched from inside the IndexField's scope then finds the IndexField, not the register
+IsPrefixOf(q, p) == Len(q) <= Len(p) /\ Prefix(p, Len(q)) = q
+ShadowedByIndexField(st) ==
+  \E i \in 1..Len(st.pend) : \E f \in NamesIn(st.pend[i].x) : \E e \in st.ixs :
+     SingleSeg(f) /\ f.segs[1] = e.x /\ IsPrefixOf(e.q, st.pend[i].cur)
 EndTable(st) ==
   LET res == [i \in 1..Len(st.pend) |-> Resolve(st.ns, st.pend[i].cur, st.pend[i].x)]
       bad == {i \in 1..Len(res) : ~TermOK(st.ns, res[i])}
@@ -199,7 +225,8 @@ EndTable(st) ==
   IF st.stack # <<>> THEN Fail(st, <<"table ends inside a block">>)
   ELSE IF bad # {} THEN Fail(st, <<"name or invocation does not match a declaration", st.pend[CHOOSE i \in bad : TRUE].x>>)
   ELSE [st EXCEPT !.calls = @ \o [i \in 1..Len(cs) |-> [tab |-> st.tab, p |-> cs[i].p, a |-> cs[i].a]],
-                  !.pend = <<>>, !.tab = @ + 1, !.displaced = {}]
+                  !.pend = <<>>, !.tab = @ + 1, !.displaced = {},
+                  !.trig = @ \cup (IF ShadowedByIndexField(st) THEN {"D10"} ELSE {})]
 
 Apply(st, t) ==
   IF st.err # <<>> THEN st
